@@ -459,7 +459,12 @@ func (w *walletWrap) GetFlatOpeningTXFee() (uint64, error) {
 	return w.real.GetFlatOpeningTXFee()
 }
 func (w *walletWrap) GetAsset() string   { return w.real.GetAsset() }
-func (w *walletWrap) GetNetwork() string { return w.real.GetNetwork() }
+func (w *walletWrap) GetNetwork() string {
+	if n := w.inc.node.Cfg.BtcNetworkName; n != "" && w.chain == "btc" {
+		return n
+	}
+	return w.real.GetNetwork()
+}
 func (w *walletWrap) GetOnchainBalance() (uint64, error) {
 	if _, err := w.inc.enter(w.chain + ".balance"); err != nil {
 		return 0, err
